@@ -9,7 +9,7 @@ pickle connections in interleaved segments.
 from . import ingest as ig
 
 PROP = 'C12'
-QUICK = (256, 80, 60.0)
+QUICK = (384, 80, 60.0)
 THOROUGH = (1600, 150, 840.0)
 boot, execute = ig.boot, ig.execute
 shrink_plan = ig.shrink_plan
